@@ -6,6 +6,7 @@ from ..srcmodel import AnalysisError, Unknown, Regex, FuncRef, unparse
 from .. import pipeline as P
 from .. import facts as F
 from ..microeval import run_function, eval_term
+from . import common_url as U
 from ..relang import Algebra, Unsupported
 from .common_trie import _enclosing_tests
 
@@ -177,7 +178,7 @@ def branch_templates(ctx, rule):
         for cname, m, r, rep in CLASSES:
             val = lambda c, m=m, r=r: m if is_M(c) else (r if is_R(c) else None)
             arm = F.resolve_under(t, val)
-            bad = F.opaque_uses(arm, url, whole)
+            bad = F.opaque_uses(P.strip_inl(arm), url, whole)  # an inlined helper that hands the url back is not a use of it
             ctx.ob(rule, "%s/%s/url-passed-whole" % (name, cname), not bad,
                    "%s cuts or inspects the url (%s) instead of passing it along whole" % (name, "; ".join(P.show(b, maxdepth=3) for b in bad[:2])), site)
             for proto in (("p", "p:", "p://") if name != "strip_protocol" else ("p",)):
@@ -201,7 +202,7 @@ def builder(ctx, rule):
     fref = fm.func("format_url")
     qref = fm.func("format_query_argument")
     ctx.fn(fref.qualname, qref.qualname)
-    fn = fref.node
+    fn = U.body_function(repo, fref).node  # the function that does the work when format_url only packs its options
     site = fm.site(fn)
     # (a) constant-truth tests
     gens = {}
